@@ -575,6 +575,11 @@ func init() {
 		func(x *Exec, st *State, fr *Frame, cc *ssa.CallCommon, args []Val, instr ssa.Instruction) []Outcome {
 			_, a := x.seqOf(st, args[0], cc.Args[0].Type())
 			_, b := x.seqOf(st, args[1], cc.Args[1].Type())
+			// the contrapositive of extensionality, instantiated for this pair: unequal
+			// sequences of one length differ at some index
+			d := app(SSeqI+"_diff", a, b)
+			st.assume(tImp(tAnd(tNot(tEq(a, b)), tEq(sLen(SSeqI, a), sLen(SSeqI, b))),
+				tAnd(tCmp("<=", "0", d), tCmp("<", d, sLen(SSeqI, a)), tNot(tEq(sIdx(SSeqI, a, d), sIdx(SSeqI, b, d))))))
 			return one(st, TV{SBool, tEq(a, b)})
 		})
 	ext("reflect.DeepEqual", "reflect.DeepEqual on slices/structs of fixed-size data: structural equality; a nil and an empty slice are NOT deeply equal (modelled as an unknown outcome when both operands are empty)",
